@@ -21,7 +21,7 @@ import copy
 import difflib
 
 from harness import core, values as V, diffcommon as D
-from harness.props.c02 import near_miss, stable_order
+from harness.props.c02 import near_miss, stable_order, gen_shared_pairs
 
 THEOREM_FILE = "Properties/C03.v"
 COQCHK = ["Properties.C03"]
@@ -53,15 +53,22 @@ TYPE_NAME = {type(None): "NoneType", bool: "bool", int: "int", float: "float", s
 # The executable specification (independent of the Coq text and of deepdiff)
 # ---------------------------------------------------------------------------
 
-def spec_diff(t1, t2, ip=True, canon=None):
+def spec_diff(t1, t2, ip=True, canon=None, set_diff=None):
     """Structural difference of t1 (old) and t2 (new), compared position by
     position, as the list of entries of the verbose text view.
     One and the same object at a position of both sides is no difference (this matters for
     NaN only, the one value that is not equal to itself: a NaN shared by identity - t2 derived
     from t1 by copy / deepcopy / dict(t1, k=v), or math.nan on both sides - is not a change,
-    two distinct NaN objects are a values_changed, exactly as Python's != on them says)."""
+    two distinct NaN objects are a values_changed, exactly as Python's != on them says).
+    `set_diff` is NOT part of the definition: the known-finding matchers pass the implementation's
+    hash-table mechanism there to replay what a finding predicts (see table_set_diff)."""
     out = []
     canon = canon or V.canon
+
+    def by_type_and_value(a, b):
+        typed_a = {(type(x), x) for x in a}
+        typed_b = {(type(x), x) for x in b}
+        return [x for x in b if (type(x), x) not in typed_a], [x for x in a if (type(x), x) not in typed_b]
 
     def sub(path, key):
         if isinstance(key, str):
@@ -107,19 +114,38 @@ def spec_diff(t1, t2, ip=True, canon=None):
                 else:
                     walk(a[i], b[i], here)
         elif isinstance(a, (set, frozenset)):
-            typed_a = {(type(x), x) for x in a}
-            typed_b = {(type(x), x) for x in b}
+            added, removed = (set_diff or by_type_and_value)(a, b)
             shown = lambda x: "'%s'" % (x,) if isinstance(x, (str, bytes)) else str(x)   # noqa: E731
-            for x in b:
-                if (type(x), x) not in typed_a:
-                    out.append(["set_item_added", "%s[%s]" % (path, shown(x))])
-            for x in a:
-                if (type(x), x) not in typed_b:
-                    out.append(["set_item_removed", "%s[%s]" % (path, shown(x))])
+            for x in added:
+                out.append(["set_item_added", "%s[%s]" % (path, shown(x))])
+            for x in removed:
+                out.append(["set_item_removed", "%s[%s]" % (path, shown(x))])
         elif a != b:
             out.append(["values_changed", path, canon(a), canon(b), None, text_diff(a, b)])
 
     walk(t1, t2, "root")
+    return core.sx_sorted(out)
+
+
+def project(entries, verbose):
+    """what is left of the verbose entries at verbose_level 1 / 0 (the documented meaning of the levels:
+    0 = no values at all, 1 = no values of added / removed dict items and no second path; independent of
+    Diff/DiffVerbose.v tproj)"""
+    out = []
+    for e in entries:
+        cat = e[0]
+        if cat == "type_changes":
+            out.append([cat, e[1], e[2], e[3], e[4] if verbose > 1 else None, e[5] if verbose > 0 else None])
+        elif cat == "values_changed":
+            if verbose > 0:
+                out.append([cat, e[1], e[2], e[3], e[4] if verbose > 1 else None, e[5]])
+        elif cat in ("dictionary_item_added", "dictionary_item_removed"):
+            out.append([cat, e[1], e[2] if verbose > 1 else None])
+        elif cat == "iterable_item_moved":
+            if verbose > 1:
+                out.append(e)
+        else:
+            out.append(e)
     return core.sx_sorted(out)
 
 
@@ -162,21 +188,82 @@ def _only_set_items_missing(case):
     return bool(missing) and not extra and all(e[0] in ("set_item_added", "set_item_removed") for e in missing)
 
 
+def table_set_diff(tags_collide, table_by_eq):
+    """the implementation's set comparison replayed: members are compared through a hash text; with
+    `tags_collide` the text of a non-string scalar is its DeepHash serialisation re-tagged as a str (so the str
+    'int:1' and the int 1 get one text: finding K1), otherwise texts are injective; with `table_by_eq` one
+    table keyed by Python == (bools kept apart) serves the text computed first for a class of == members, in
+    the order DeepDiff fills it (t1's members, then t2's, set pairs in traversal order: finding K2).  One
+    entry per text and side (the first member in iteration order)."""
+    table = {}
+
+    def text(x):
+        if not tags_collide:
+            return (type(x).__name__, x)
+        if isinstance(x, str):
+            return "str:" + x
+        if isinstance(x, bytes):
+            return "bytes:" + x.decode("utf-8", "replace")
+        return "str:" + tag_text(x)
+
+    def h(x):
+        key = ("bool", x) if isinstance(x, bool) else x
+        if table_by_eq and key in table:
+            return table[key]
+        t = text(x)
+        if table_by_eq:
+            table[key] = t
+        return t
+
+    def set_diff(a, b):
+        fa, fb = {}, {}
+        for x in a:
+            fa.setdefault(h(x), x)
+        for x in b:
+            fb.setdefault(h(x), x)
+        return [x for k, x in fb.items() if k not in fa], [x for k, x in fa.items() if k not in fb]
+    return set_diff
+
+
+def _case_inputs(case):
+    if "pickle_b64" in case:
+        return __import__("pickle").loads(__import__("base64").b64decode(case["pickle_b64"]))
+    return eval(case["t1"]), eval(case["t2"])
+
+
+def _predicted(case, tags_collide, table_by_eq):
+    """the result the mechanism predicts for this case, at the case's verbosity"""
+    t1, t2 = _case_inputs(case)
+    r = spec_diff(t1, t2, case.get("ip", True), set_diff=table_set_diff(tags_collide, table_by_eq))
+    return project(r, case["verbose"]) if case.get("verbose", 2) != 2 else r
+
+
+SPEC_CLAUSES = ("result differs from the specification", "result at a lower verbose_level differs from the projected specification")
+
+
 def k1(case):
-    """a set member string spells the serialisation of a non-string set member (of either side)"""
-    if case.get("clause") != "result differs from the specification" or not _only_set_items_missing(case):
+    """a set member string spells the serialisation of a non-string set member (of either side), the only
+    deviation is missing set_item_* entries, the observed result is exactly what the hash-text mechanism WITH
+    tag collisions predicts and not what it predicts without them"""
+    if case.get("clause") not in SPEC_CLAUSES or not _only_set_items_missing(case):
         return False
-    t1, t2 = eval(case["t1"]), eval(case["t2"])
+    t1, t2 = _case_inputs(case)
     members = _set_members(t1, []) + _set_members(t2, [])
     tags = {tag_text(x) for x in members} - {None}
-    return any(isinstance(x, str) and x in tags for x in members)
+    if not any(isinstance(x, str) and x in tags for x in members):
+        return False
+    return case["observed"] == _predicted(case, True, True) and case["observed"] != _predicted(case, False, True)
 
 
 def k2(case):
-    """set members that are == but of different type (int/float): the second gets the first's hash from the memo"""
-    if case.get("clause") != "result differs from the specification" or not _only_set_items_missing(case):
+    """set members that are == but of different type (int/float): the second gets the first's hash from the
+    table; observed = the prediction WITH the ==-keyed table and not the prediction without it"""
+    if case.get("clause") not in SPEC_CLAUSES or not _only_set_items_missing(case):
         return False
-    return D.set_alias(eval(case["t1"]), eval(case["t2"]))
+    t1, t2 = _case_inputs(case)
+    if not D.set_alias(t1, t2):
+        return False
+    return case["observed"] == _predicted(case, True, True) and case["observed"] != _predicted(case, True, False)
 
 
 MATCHERS = {"K1": k1, "K2": k2}
@@ -248,6 +335,66 @@ def random_pairs(ctx, n):
     return out
 
 
+def with_bytes_keys(rng, t1, t2):
+    """the same pair with some str dict keys replaced (consistently on both sides) by bytes keys
+    (fixed in /repo by 0fac13b: the path printer renders them as root[b'a']); b'__x' is not a private key"""
+    keys = set()
+
+    def collect(v):
+        if isinstance(v, dict):
+            for k, x in v.items():
+                if isinstance(k, str):
+                    keys.add(k)
+                collect(x)
+        elif isinstance(v, (list, tuple)):
+            for x in v:
+                collect(x)
+    collect(t1)
+    collect(t2)
+    if not keys:
+        return {b"k": t1, "k": 0}, {b"k": t2, "k": 0}
+    chosen = {k for k in keys if rng.random() < 0.6} or {sorted(keys)[0]}
+    extra = rng.choice([b"a\nb", b"\xff", b"it's", b'q"q', b""])
+
+    def conv(v):
+        if isinstance(v, dict):
+            return {(k.encode("latin-1") if isinstance(k, str) and k in chosen else k): conv(x) for k, x in v.items()}
+        if isinstance(v, list):
+            return [conv(x) for x in v]
+        if isinstance(v, tuple):
+            return tuple(conv(x) for x in v)
+        return v
+    a, b = conv(t1), conv(t2)
+    if rng.random() < 0.3:          # an awkward key (newline / non-ASCII / quotes / empty) present on one side or both
+        a, b = {extra: a, b"z": 1}, ({extra: b, b"z": 1} if rng.random() < 0.6 else {b"z": 1, b"y": b})
+    return a, b
+
+
+def length_pairs(ctx, n):
+    """lists / tuples of different length at every depth (zip_ordered_iterables compares position by position and
+    reports the longer side's tail): a sequence of t1 truncated or extended by 1-3 items (scalars and containers)"""
+    rng = ctx.rng
+    out = []
+    while len(out) < n:
+        t1 = V.gen_value(rng, depth=3, width=4, strings=STRINGS, kinds="LTDA")
+        seqs = [p for p in V.positions(t1) if isinstance(V.get_at(t1, p), (list, tuple))]
+        if not seqs:
+            continue
+        p = rng.choice(seqs)
+        seq = V.get_at(t1, p)
+        k = rng.randint(1, 3)
+        if seq and rng.random() < 0.5:
+            new = seq[:max(0, len(seq) - k)]
+            ctx.count("gen:length:truncated")
+        else:
+            tail = [V.gen_value(rng, depth=1, width=2, strings=STRINGS) for _ in range(k)]
+            new = seq + type(seq)(tail)
+            ctx.count("gen:length:extended")
+        t2 = V.set_at(copy.deepcopy(t1), p, new) if p else new
+        out.append((t1, t2))
+    return out
+
+
 # ---------------------------------------------------------------------------
 # one pair
 # ---------------------------------------------------------------------------
@@ -260,14 +407,42 @@ def spec_expr(t1, t2, ip):
         D.coq_udiff_table(D.udiff_table(t1, t2)), "true" if ip else "false", V.to_coq(t1), V.to_coq(t2))
 
 
-def one_pair(ctx, t1, t2, ip, cases_model, cases_spec, cases_specs, corr=True):
+def _b64(t1, t2):
+    return __import__("base64").b64encode(__import__("pickle").dumps((t1, t2))).decode("ascii")
+
+
+def lower_verbosity(ctx, case, t1, t2, ip, expected, verbose, pos):
+    """the same pair at verbose_level 0 / 1: the result must be the projection of the definition's entries"""
     from deepdiff import DeepDiff
+    try:
+        res = DeepDiff(copy.deepcopy(t1), copy.deepcopy(t2), ignore_private_variables=ip, **dict(pos, verbose_level=verbose))
+        observed = D.text_obs(res)
+    except Exception as e:  # noqa
+        ctx.fail(dict(case, verbose=verbose, clause="DeepDiff raised " + type(e).__name__), "DeepDiff raised %r at verbose_level=%d" % (e, verbose))
+        return None
+    want = project(expected, verbose)
+    ctx.count("verbose%d:evaluated" % verbose)
+    ctx.count("verbose%d:entries_vanished" % verbose, len(expected) - len(want))
+    if observed != want:
+        ctx.fail(dict(case, verbose=verbose, clause="result at a lower verbose_level differs from the projected specification", expected=want, observed=observed),
+                 "verbose_level=%d result differs from the projection of the recursive definition: expected %s observed %s"
+                 % (verbose, core.sx_show(want)[:500], core.sx_show(observed)[:500]))
+    return observed
+
+
+def one_pair(ctx, t1, t2, ip, cases_model, cases_spec, cases_specs, corr=True, shared=False, low=None, pos=None, special=None):
+    from deepdiff import DeepDiff
+    pos = pos or POS
     case = dict(t1=repr(t1), t2=repr(t2), ip=ip)
+    if shared:
+        case["pickle_b64"] = _b64(t1, t2)       # repr loses "the same object at two positions"
+    if pos is not POS:
+        case["pos"] = repr(pos)
     expected = spec_diff(copy.deepcopy(t1), copy.deepcopy(t2), ip)
     a, b = copy.deepcopy(t1), copy.deepcopy(t2)
     sa, sb = V.canon(a), V.canon(b)
     try:
-        res = DeepDiff(a, b, ignore_private_variables=ip, **POS)
+        res = DeepDiff(a, b, ignore_private_variables=ip, **pos)
     except Exception as e:  # noqa
         ctx.fail(dict(case, clause="DeepDiff raised " + type(e).__name__), "DeepDiff raised " + repr(e))
         return
@@ -287,29 +462,43 @@ def one_pair(ctx, t1, t2, ip, cases_model, cases_spec, cases_specs, corr=True):
     if observed != expected:
         ctx.fail(dict(case, clause="result differs from the specification", expected=expected, observed=observed),
                  "positional result differs from the recursive definition: expected %s observed %s" % (core.sx_show(expected)[:600], core.sx_show(observed)[:600]))
+    observed_low = lower_verbosity(ctx, case, t1, t2, ip, expected, low, pos) if low is not None else None
     if not corr:
         return
-    tag = dict(case)
+    tag = {k: v for k, v in case.items() if k != "pickle_b64"}
+    if special:
+        tag["special"] = special
+    if observed_low is not None and D.in_model_guard(t1, t2):
+        cases_model.append(("model", t1, t2, ip, observed_low, dict(tag, what="model vs implementation", verbose=low), low))
+        if not D.tag_unsafe(t1, t2):
+            cases_spec.append(("spec", t1, t2, ip, observed_low, dict(tag, what="coq spec (projected) vs implementation", verbose=low), low))
     # (c) Coq specification vs Python specification: every pair
     # (the Coq expressions are built after sampling: see build())
-    cases_specs.append(("spec", t1, t2, ip, expected, dict(tag, what="coq spec vs python spec")))
+    cases_specs.append(("spec", t1, t2, ip, expected, dict(tag, what="coq spec vs python spec"), 2))
     if D.in_model_guard(t1, t2):
         ctx.count("in_model_guard")
-        cases_model.append(("model", t1, t2, ip, observed, dict(tag, what="model vs implementation")))
+        cases_model.append(("model", t1, t2, ip, observed, dict(tag, what="model vs implementation"), 2))
         if not D.tag_unsafe(t1, t2):     # tag-like set members: the implementation deviates from the definition (finding K1)
-            cases_spec.append(("spec", t1, t2, ip, observed, dict(tag, what="coq spec vs implementation")))
+            cases_spec.append(("spec", t1, t2, ip, observed, dict(tag, what="coq spec vs implementation"), 2))
         else:
             ctx.count("coqspec_vs_impl:skipped_K1_pairs")
     else:
         # ==-aliased set members: the memo-threaded model Diff/DiffMemo.v (DeepDiff's run-wide DeepHash table)
         ctx.count("aliased_set_members:run_on_memo_model")
-        cases_model.append(("memo", t1, t2, ip, observed, dict(tag, what="memo model vs implementation")))
+        cases_model.append(("memo", t1, t2, ip, observed, dict(tag, what="memo model vs implementation"), 2))
 
 
 def build(lazy):
-    kind, t1, t2, ip, obs, tag = lazy
-    expr = (D.model_text_expr(t1, t2, True, 0, 2, ip) if kind == "model"
-            else D.memo_text_expr(t1, t2, True, 0, 2, ip) if kind == "memo" else spec_expr(t1, t2, ip))
+    kind, t1, t2, ip, obs, tag, verbose = lazy
+    if kind == "model":
+        expr = D.model_text_expr(t1, t2, True, 0, verbose, ip)
+    elif kind == "memo":
+        expr = D.memo_text_expr(t1, t2, True, 0, verbose, ip)
+    elif verbose == 2:
+        expr = spec_expr(t1, t2, ip)
+    else:
+        expr = "sx_text (spec_diff_at %d (tbl_udiff %s) %s %s %s)" % (
+            verbose, D.coq_udiff_table(D.udiff_table(t1, t2)), "true" if ip else "false", V.to_coq(t1), V.to_coq(t2))
     return (expr, obs, tag)
 
 
@@ -456,24 +645,49 @@ def run(ctx):
     rnd = random_pairs(ctx, 40000 if ctx.thorough else 7000)
     ctx.count("pairs:random_and_edit", len(rnd))
     cases_model, cases_spec, cases_specs = [], [], []
-    for i, (t1, t2) in enumerate(pairs + rnd):
+    rng = ctx.rng
+    # dict keys that are bytes (12 % of the random pairs), sequences of different length, and pairs in which ONE
+    # container object of t1 sits at 2-3 sibling positions (a tree for the diff; lead's broadcast, point 2)
+    bk = [with_bytes_keys(rng, a, b) for a, b in rng.sample(rnd, max(1, len(rnd) * 12 // 100))]
+    ctx.count("pairs:bytes_dict_keys", len(bk))
+    ln = length_pairs(ctx, 2000 if ctx.thorough else 250)
+    sh = [(a, b) for a, b, _k, _c in gen_shared_pairs(ctx, 5000 if ctx.thorough else 800)]
+    ctx.count("pairs:shared_sibling_containers", len(sh))
+    n_plain = len(pairs) + len(rnd) + len(bk) + len(ln)
+    n_std = len(pairs) + len(rnd)
+    for i, (t1, t2) in enumerate(pairs + rnd + bk + ln + sh):
         ip = (i % 2 == 0)
         t1, t2 = stable_order(t1), stable_order(t2)
-        one_pair(ctx, t1, t2, ip, cases_model, cases_spec, cases_specs)
+        low = (0, 1)[(i // 3) % 2] if i % 3 == 0 else None                 # a third of the pairs also at verbose_level 0 / 1
+        pos = POS if i % 10 else dict(POS, threshold_to_diff_deeper=0.0)    # the float spelling of the threshold
+        special = None if i < n_std else "bytes_dict_keys" if i < n_std + len(bk) else "different_length" if i < n_plain else "shared_containers"
+        one_pair(ctx, t1, t2, ip, cases_model, cases_spec, cases_specs, shared=(i >= n_plain), low=low, pos=pos, special=special)
     for k, (t1, t2, kind) in enumerate(gen_nan_pairs(ctx, 3000 if ctx.thorough else 300)):
         nan_pair(ctx, t1, t2, kind, ip=(k % 2 == 0))
     replay_witnesses(ctx)
     # correspondence budget: a seeded slice of the evaluated pairs (10x larger in thorough)
     def pick(cs, n):
+        """a seeded slice; a fifth of it is reserved for each of: lower verbosity, the special generators"""
         n = n * 10 if ctx.thorough else n
-        return cs if len(cs) <= n else ctx.rng.sample(cs, n)
+        if len(cs) <= n:
+            return cs
+        low = [x for x in cs if x[6] != 2]
+        spec = [x for x in cs if x[6] == 2 and x[5].get("special")]
+        rest = [x for x in cs if x[6] == 2 and not x[5].get("special")]
+        out = ctx.rng.sample(low, min(len(low), n // 5)) + ctx.rng.sample(spec, min(len(spec), n // 5))
+        out += ctx.rng.sample(rest, min(len(rest), n - len(out)))
+        for x in out:
+            ctx.count("corr:verbose%d" % x[6])
+            if x[5].get("special"):
+                ctx.count("corr:" + x[5]["special"])
+        return out
     memo_cases = [x for x in cases_model if x[0] == "memo"]
     plain_cases = [x for x in cases_model if x[0] != "memo"]
     ctx.count("corr:memo_model_cases", len(pick(memo_cases, 600)))
     cm, cs, css = ([build(x) for x in l] for l in (pick(plain_cases, 2500) + pick(memo_cases, 600), pick(cases_spec, 2000), pick(cases_specs, 2000)))
     for c in cm[:3]:
         ctx.sample(c[2])
-    hdr = D.MODEL_HDR_M + "\nFrom DD Require Import Diff.Spec."
+    hdr = D.MODEL_HDR_M + "\nFrom DD Require Import Diff.Spec Diff.DiffVerbose."
     ctx.coq_cases("c03m", hdr, cm, shard=150, label="model_vs_impl")
     ctx.coq_cases("c03s", hdr, cs, shard=150, label="coqspec_vs_impl")
     ctx.coq_cases("c03p", hdr, css, shard=150, label="coqspec_vs_pyspec")
@@ -481,11 +695,12 @@ def run(ctx):
 
 def replay(ctx, data):
     case = data.get("case", {})
-    if "pickle_b64" in case:
+    if "pickle_b64" in case and str(case.get("kind", "")).startswith("nan"):
         t1, t2 = __import__("pickle").loads(__import__("base64").b64decode(case["pickle_b64"]))   # keeps the NaN objects shared
         nan_pair(ctx, t1, t2, case.get("kind", "nan:replay"), case.get("ip", True))
     elif "t1" in case:
-        t1, t2 = eval(case["t1"]), eval(case["t2"])
-        one_pair(ctx, t1, t2, case.get("ip", True), [], [], [], corr=False)
+        t1, t2 = _case_inputs(case)             # the pickle keeps "one object at several positions"
+        pos = eval(case["pos"]) if "pos" in case else None
+        one_pair(ctx, t1, t2, case.get("ip", True), [], [], [], corr=False, shared="pickle_b64" in case, low=case.get("verbose"), pos=pos)
     else:
         run(ctx)
